@@ -367,7 +367,9 @@ func runC10Case(seed int64, idx int) *c10Result {
 	}
 	ended, wedged, census := run.WaitEndOrWedge(func() int { return srv.Count() + run.Delivered() }, 100, 60*time.Second)
 	if !ended {
-		run.C.Close()
+		if !run.CloseWithin(8 * time.Second) {
+			fail("close-blocks", "Close() did not return within 8 s")
+		}
 		run.WaitResult(5 * time.Second)
 		res.desc = map[string]any{"seed": seed, "index": idx, "container": container, "features": fmt.Sprint(feats), "segments": nSeg, "vod": vod, "fragments_per_segment": frags}
 		if wedged {
